@@ -28,6 +28,9 @@ B = {"SANDBOX": 1, "SUBPROCESS": 2, "NET_CONNECT": 4, "NET_LISTEN": 8, "FFI_DEFI
      "FS_READ": 64, "HRTIME": 128, "ENV": 256, "DYNAMIC_MODULES": 512, "FS_TEMP": 1024, "FFI_USE": 2048,
      "FFI_JIT": 4096, "SIGNAL": 8192}
 FS_ANY = B["FS_WRITE"] | B["FS_READ"] | B["FS_TEMP"]
+# Linux fcntl.h: O_WRONLY 01, O_RDWR 02, O_CREAT 0100, O_TRUNC 01000.  O_APPEND alone cannot modify a file
+# (it needs O_WRONLY/O_RDWR as well), so it is not write intent.
+WRITE_INTENT_BITS = 0o1 | 0o2 | 0o100 | 0o1000
 NET_ANY = B["NET_CONNECT"] | B["NET_LISTEN"]
 FFI_ANY = B["FFI_DEFINE"] | B["FFI_USE"] | B["FFI_JIT"]
 
@@ -145,6 +148,9 @@ class Guard(object):
                 S = frozenset(frozenset(f for f in s if not (f[0] == "c" and f[1] == nm)) for s in S)
                 if n.op == "=" and n.kids[1].v is not None:
                     S = frozenset(s | frozenset([("c", nm, n.kids[1].v)]) for s in S)
+                # open(2) flags that create, truncate or write: the variable now carries write intent
+                if n.op in ("|=", "=") and n.kids[1].v is not None and (n.kids[1].v & WRITE_INTENT_BITS):
+                    S = frozenset(s | frozenset([("w", nm)]) for s in S)
                 return S
             if n.k == "un" and n.op in ("pre++", "post++", "pre--", "post--") and is_ref(n.kids[0]) and n.kids[0].name in intlocals:
                 nm = n.kids[0].name
@@ -313,6 +319,18 @@ def _guard_rule(chk, prog):
                 chk.instance(rule)
                 full = states[n.id]
                 st = common_bits(full)
+                # a flags argument that was given create/truncate/write bits on this path needs FS_WRITE itself
+                if name in ("open", "openat") and len(n.args) >= 2 and strip_casts(n.args[1]).k == "ref":
+                    fv = strip_casts(n.args[1]).name
+                    lacking = [ps for ps in full if ("w", fv) in ps and not any(f[0] == "a" and f[1] == B["FS_WRITE"] for f in ps)]
+                    chk.instance(rule)
+                    if lacking:
+                        chk.violation(rule, fn.tu.name, fn.name, "%s:write-intent" % name, n.loc,
+                                      "%s() is reached on a path where `%s` was given O_CREAT/O_TRUNC/O_WRONLY/O_RDWR but "
+                                      "JANET_SANDBOX_FS_WRITE was not asserted on that path: creating or truncating a file slips past "
+                                      "(sandbox :fs-write)" % (name, fv))
+                    else:
+                        chk.ok(rule, "%s: %s with write intent only after FS_WRITE was asserted" % (fn.name, name))
                 if holds(full, mask):
                     guarded_bits |= mask
                     chk.ok(rule, "%s: %s [%s] guarded (asserted on every path: %#x)" % (fn.name, name, cls, st))
